@@ -144,7 +144,7 @@ const alphabet = "abdx"
 
 // literal characters a pattern may also name: the dot of hidden / suffixed names, letters of the operation's other
 // arguments (root "t", destination "o", archive "out.zip"), a regex metacharacter (printed escaped)
-const extraPatChars = ".otz+"
+const extraPatChars = ".otz+ \t . \t"
 
 func chr(c byte) *Re   { return &Re{K: "chr", C: int(c)} }
 func cat(a, b *Re) *Re { return &Re{K: "cat", A: a, B: b} }
@@ -206,10 +206,18 @@ type Pat struct {
 	AST  *Re    `json:"ast,omitempty"`
 }
 
-func good(r *Re) Pat { return Pat{Kind: "good", Text: r.text(true), AST: r} }
+// good: the pattern handed to the library is the printed text AS IS (blanks included); a text of blanks only is what
+// the library calls an empty pattern and skips
+func good(r *Re) Pat {
+	t := r.text(true)
+	if strings.TrimSpace(t) == "" {
+		return Pat{Kind: "blank", Text: t}
+	}
+	return Pat{Kind: "good", Text: t, AST: r}
+}
 
 var badTexts = []string{"[", "(", ")", "a(", "*a", "a**", "+", "?", "[a", "a{2,1}", "\\", "(?P<x", "[b-a]", "a{1001}", "(?z)", "x[", "a|*"}
-var blankTexts = []string{"", " ", "\t ", "  "}
+var blankTexts = []string{"", " ", "\t ", "  ", "\t", " \n", "\r\n"}
 
 func (p Pat) coq() string {
 	switch p.Kind {
@@ -302,13 +310,14 @@ func genName(r *h.Run) string {
 }
 
 // names with dots in every position and with regex metacharacters (all legal on Linux and in a zip archive)
-var oddNames = []string{".a", ".b", "a.", ".a.b", "a..b", "..a", ".b.a", "...", ".x.", "d.", "a+b", "a(b", "[a]", "a$", "^a", "a*b", "a?b", "a|b", "a b", "{a}", "x.d", "b.a"}
+var oddNames = []string{".a", ".b", "a.", ".a.b", "a..b", "..a", ".b.a", "...", ".x.", "d.", "a+b", "a(b", "[a]", "a$", "^a", "a*b", "a?b", "a|b", "a b", "{a}", "x.d", "b.a",
+	" a", "a ", " a ", "a  b", "\ta", "a\t", "a\tb", " ", "  ", "b ", " b", "d ", " ab", "ab "}
 
 // namePool: names equal to / containing / contained in the names of the operation's other arguments, plus the odd names
 func namePool(r *h.Run, args ...string) []string {
 	pool := append([]string{}, oddNames...)
 	for _, x := range args {
-		pool = append(pool, x, x, "b"+x, x+".d", "ab"+x+".d", x+".sha256", "."+x, x+".")
+		pool = append(pool, x, x, "b"+x, x+".d", "ab"+x+".d", x+".sha256", "."+x, x+".", x+" ", " "+x, x+"\t")
 		if len(x) > 1 {
 			pool = append(pool, x[1:], x[:len(x)-1])
 		}
@@ -681,6 +690,9 @@ func runScenario(r *h.Run, e *env, sc Scenario, emit bool) {
 	var cs []compiled
 	allSepFree := true
 	for _, p := range sc.Pats {
+		if strings.TrimSpace(p.Text) == "" {
+			continue // a pattern of blanks only is the library's "no pattern": it names nothing
+		}
 		cs = append(cs, compiled{regexp.MustCompile("^(?:" + p.Text + ")$"), regexp.MustCompile(p.Text)})
 		if p.AST != nil && !p.AST.sepFree() {
 			allSepFree = false
@@ -950,6 +962,9 @@ func runExcludeAll(r *h.Run, std, mem filesystem.FS, via string, names []string,
 				for _, nm := range names {
 					full, part := false, false
 					for _, p := range ps {
+						if strings.TrimSpace(p.Text) == "" {
+							continue
+						}
 						full = full || regexp.MustCompile("^(?:"+p.Text+")$").MatchString(nm)
 						part = part || regexp.MustCompile(p.Text).MatchString(nm)
 					}
@@ -1035,7 +1050,7 @@ func checkWrappersDriven(r *h.Run) {
 // ---------- matcher / IsPathExcludedFromPatterns correspondence ----------
 
 func matcherCases(r *h.Run, n int) {
-	chars := alphabet + "/.ot+"
+	chars := alphabet + "/.ot+ \t"
 	for i := 0; i < n; i++ {
 		re := genRe(r, 3)
 		l := r.Rng.Intn(7)
@@ -1062,7 +1077,7 @@ func matcherCases(r *h.Run, n int) {
 }
 
 func exclCases(r *h.Run, n int) {
-	chars := alphabet + "/47.o"
+	chars := alphabet + "/47.o \t"
 	for i := 0; i < n; i++ {
 		np := r.Rng.Intn(3) + 1
 		var ps []Pat
@@ -1105,6 +1120,9 @@ func genPats(r *h.Run, pool []string) []Pat {
 			ps = append(ps, Pat{Kind: "blank", Text: blankTexts[r.Rng.Intn(len(blankTexts))]})
 		case k < 3:
 			ps = append(ps, good(word(genNameP(r, pool)))) // often a literal odd name, metacharacters escaped
+		case k < 5: // a name with a blank or a tab at one edge, as left by splitting "a , b"
+			nm := genNameP(r, pool)
+			ps = append(ps, good(word([]string{nm + " ", " " + nm, nm + "\t", "\t" + nm, " " + nm + " "}[r.Rng.Intn(5)])))
 		case k < 8:
 			ps = append(ps, good(word(genName(r))))
 		default:
@@ -1119,7 +1137,7 @@ func main() {
 	r.Imports = []string{"GU.C08.Regex", "GU.C08.Model", "GU.C08.Gen"}
 	r.CheckFn = "check_case_gen" // the model instantiated with the facts the translator read from the source
 	r.Rule("trees (depth <= 4, names of 1..3 letters over {a,b,d,x}; every other tree also draws names with leading/trailing/doubled dots, regex metacharacters, and names equal to / containing / contained in the root, destination and archive base names) " +
-		"x 0..3 anchor-free regexes (literals incl. escaped '.', '+' and letters of the other arguments, classes, '.', * + ?, alternation, empty; every fifth tree with NO pattern) " +
+		"x 0..3 anchor-free regexes handed over AS PRINTED (literals incl. blanks and tabs at the edges and inside, escaped '.', '+' and letters of the other arguments, classes, '.', * + ?, alternation, empty; every fifth tree with NO pattern) " +
 		"x 11 calls (walk, ls, lsrec with/without directories, listtree, subdirs, copy to a fresh / into an existing destination, zip, remove, clean) " +
 		"on the in-memory back end and (every fourth tree) the OS back end; plus an invalid/blank-pattern stream. " +
 		"non-trivial = the tree has both an entry with a fully matched component and an entry without any match; distinct by (op, backend, tree, patterns).")
@@ -1215,6 +1233,18 @@ func main() {
 		allOps(r, e, "mem", "t", "o", rich, ps, true)
 		if i < 2 {
 			allOps(r, e, "os", "t", "o", rich, ps, true)
+		}
+	}
+	// blanks and tabs at the edges of and inside names and patterns: a pattern is used AS GIVEN (a blank is a character to
+	// match), patterns of blanks only are skipped, patterns differing only by such blanks are different patterns
+	blanks := dir("", file("a"), file("ab"), file("ab "), file(" a"), file("a b"), file("b\t"), dir("d", file("a"), file("a "), dir("ab", file(" a"))),
+		dir("a ", file("x"), file("a")), dir("b", file(" b"), file("b"), file("\tb")), dir(" ", file("a")))
+	blankPats := [][]Pat{{good(word("a "))}, {good(word(" a"))}, {good(word("a")), good(word("a "))}, {good(word(" b")), {Kind: "blank", Text: " "}}, {good(word("b\t"))}, {good(word("\tb"))},
+		{good(word("a b"))}, {good(word("d "))}, {good(word(" ab ")), good(word("ab "))}, {{Kind: "blank", Text: "  "}, {Kind: "blank", Text: "\t"}}, {good(cat(word("a"), star(chr(' '))))}, {good(word(" a ")), good(word("x "))}, nil}
+	for i, ps := range blankPats {
+		allOps(r, e, "mem", "t", "o", blanks, ps, true)
+		if i%4 == 0 {
+			allOps(r, e, "os", "t", "o", blanks, ps, true)
 		}
 	}
 	// OS back end = the global file system: every call is also made through the package-level functions, with an
